@@ -338,6 +338,15 @@ def selection(fn):
     opts = body[idx[0]]
     keys = [const_str(k, "opts key") for k in opts.value.keys]
     pre, tail = body[:idx[0]], body[idx[0] + 1:]
+    # the crop the script re-creates: its name, and ONE absolute parent directory used both for `cd` and for
+    # Crop(parent_dir=...) (a relative spelling would be resolved a second time after the cd)
+    vals = {const_str(k, "opts key"): ast.unparse(v) for k, v in zip(opts.value.keys, opts.value.values)}
+    if vals.get("name") != "crop.name" or vals.get("parent_dir") != "full_parent_dir" \
+            or vals.get("working_directory") != "full_parent_dir":
+        raise Refused(opts, "name / parent_dir / working_directory of the script are not the crop's name and its "
+                            "resolved parent directory")
+    if "full_parent_dir = str(pathlib.Path(crop.parent_dir).expanduser().resolve())" not in [ast.unparse(x) for x in pre]:
+        raise Refused(fn, "full_parent_dir is not the resolved absolute parent directory")
     # the part before: validation of scheduler / mode, and nothing that touches the selection inputs
     pre_txt = [ast.unparse(s) for s in pre]
     for need in ("scheduler = scheduler.lower()",
